@@ -39,6 +39,86 @@ def _part(x: ast.expr) -> str:
     return d or norm(x)
 
 
+def _copy_applies_kwargs(prog: Program, cp: FuncInfo) -> Tuple[bool, str]:
+    """copy(**kwargs): the constructor receives name=self.name (and context / positional) as defaults that the keyword
+    arguments given to copy() override."""
+    from ..flow import Flow
+    cfg = CFG(cp, prog)
+    fl = Flow(cfg)
+    kwp = cp.node.args.kwarg.arg if cp.node.args.kwarg else None
+    if kwp is None:
+        return False, 'copy() takes no **kwargs'
+    for n in cfg.stmt_nodes():
+        if n.kind != 'stmt' or not isinstance(n.ast, ast.Return) or not isinstance(n.ast.value, ast.Call):
+            continue
+        call = n.ast.value
+        splats = [k.value for k in call.keywords if k.arg is None]
+        if any(k.arg == 'name' for k in call.keywords):
+            return False, f'`{norm(call)[:80]}` passes name= explicitly: the override given to copy() is ignored or collides'
+        if len(splats) != 1:
+            return False, f'`{norm(call)[:80]}` does not splat the merged keyword arguments'
+        for al in fl.alts(n, splats[0]):
+            v = al.expr
+            keys: List[Optional[str]] = []
+            vals: List[ast.expr] = []
+            if isinstance(v, ast.Dict):
+                keys = [k.value if isinstance(k, ast.Constant) else None for k in v.keys]
+                vals = list(v.values)
+                if 'name' not in keys or dotted(vals[keys.index('name')]) != 'self.name':
+                    return False, f'`{norm(v)[:80]}` does not default name to self.name'
+                later = [dotted(vals[i]) for i in range(keys.index('name') + 1, len(keys)) if v.keys[i] is None]
+                if kwp not in later:
+                    return False, f'`{norm(v)[:80]}`: the keyword arguments of copy() do not override the defaults'
+            elif isinstance(v, ast.Call) and dotted(v.func) == 'dict' or isinstance(v, ast.Name):
+                # dict(name=self.name, ...) followed by .update(kwargs) before the constructor call
+                var = splats[0].id if isinstance(splats[0], ast.Name) else None
+                base_ = v if isinstance(v, ast.Call) else None
+                if base_ is None or var is None:
+                    return False, f'keyword arguments `{norm(v)[:60]}` not recognised'
+                if not any(k.arg == 'name' and dotted(k.value) == 'self.name' for k in base_.keywords):
+                    return False, f'`{norm(base_)[:80]}` does not default name to self.name'
+                upd = [m for m in cfg.stmt_nodes() for c in calls_in(m) if isinstance(c.func, ast.Attribute) and c.func.attr == 'update'
+                       and dotted(c.func.value) == var and c.args and dotted(c.args[0]) == kwp]
+                if not upd or not all(n.id in cfg.reachable(m) for m in upd) or not cfg.dominated_by(n, upd):
+                    return False, 'the keyword arguments of copy() are not merged over the defaults on every path'
+            else:
+                return False, f'keyword arguments `{norm(v)[:60]}` not recognised'
+        return True, 'defaults (name=self.name, …) overridden by the keyword arguments of copy()'
+    return False, 'no constructor call returned'
+
+
+def _add_methods_delegates(prog: Program, f: FuncInfo) -> bool:
+    """BaseDispatcher.add_methods: a registry is merged, a Method is added as such, anything else goes through add()."""
+    from ..flow import Flow
+    cfg = CFG(f, prog)
+    fl = Flow(cfg)
+    heads = [n for n in cfg.nodes if n.kind == 'next']
+    if len(heads) != 1 or dotted(heads[0].ast.iter) != f.params[1].arg:
+        return False
+    tv = dotted(heads[0].ast.target)
+    seen = {}
+    for n in cfg.stmt_nodes():
+        for c in calls_in(n):
+            if not (isinstance(c.func, ast.Attribute) and c.func.attr in ('merge', 'add_methods', 'add')):
+                continue
+            if [dotted(al.expr) for al in fl.alts(n, c.func.value)] != ['self._registry']:
+                continue
+            if len(c.args) != 1 or dotted(c.args[0]) != tv or c.keywords:
+                return False
+            st = {}
+            for g in guard_edges(cfg, n):
+                k = classify_cond(prog, f, g.src.ast)
+                if k.kind == 'isinstance' and k.subject == tv:
+                    for cls in k.detail.split(','):
+                        st[cls.rsplit('.', 1)[-1]] = (g.label == 'T') != k.negated
+            if c.func.attr in seen:
+                return False
+            seen[c.func.attr] = st
+    return set(seen) == {'merge', 'add_methods', 'add'} and seen['merge'].get('MethodRegistry') is True and \
+        seen['add_methods'].get('Method') is True and seen['add_methods'].get('MethodRegistry') is not True and \
+        seen['add'].get('Method') is False and seen['add'].get('MethodRegistry') is False
+
+
 def run(ck: Check, prog: Program) -> None:
     ck.explain('Symbolic evaluation of each registration operation of MethodRegistry: the key stored is Join(".", nonempty[registry '
                'prefix, (view prefix,) explicit name or __name__]); merge re-prefixes a copy of each method with the own prefix; the '
@@ -205,16 +285,18 @@ def run(ck: Check, prog: Program) -> None:
         ck.finding('NAME-COMPOSE', merge.qualname, 'merge name composition', merge.module.rel, merge.node.lineno,
                    f'merge must store method.copy(name=<own prefix>.<name>) for every (name, method) of the other registry; {why}')
     # copy(): the name kwarg replaces the stored name
+    from ..inline import inlined_program as _inl
+    cprog = _inl(prog, ['pjrpc.server.dispatcher.Method.copy', 'pjrpc.server.dispatcher.ViewMethod.copy'])
     for cq in ('pjrpc.server.dispatcher.Method', 'pjrpc.server.dispatcher.ViewMethod'):
-        cp = prog.cls(cq).methods.get('copy')
+        cp = cprog.cls(cq).methods.get('copy')
         okc = False
+        whyc = 'copy() not found'
         if cp is not None:
-            txt = norm(cp.node)
-            okc = 'name=self.name' in txt and '.update(kwargs)' in txt and '**cls_kwargs' in txt
-        ck.ob('NAME-COMPOSE', f'{cq.rsplit(".", 1)[-1]}.copy(name=…) builds the same kind of method under the given name', okc, nontrivial=False)
+            okc, whyc = _copy_applies_kwargs(cprog, cp)
+        ck.ob('NAME-COMPOSE', f'{cq.rsplit(".", 1)[-1]}.copy(name=…) builds the same kind of method under the given name', okc, sample={'form': whyc})
         if not okc:
             ck.finding('NAME-COMPOSE', cq + '.copy', 'copy does not apply the new name', 'pjrpc/server/dispatcher.py', cp.node.lineno if cp else 0,
-                       'copy(**kwargs) must rebuild the method with name/context/positional overridden by kwargs')
+                       f'copy(**kwargs) must rebuild the method with name/context/positional overridden by kwargs: {whyc}')
     # ---- REPLACE-LATER ------------------------------------------------------------------------------
     am = reg.methods['_add_method']
     ck.functions.add(am.qualname)
@@ -222,7 +304,10 @@ def run(ck: Check, prog: Program) -> None:
     stores = [n for n in cfg.stmt_nodes() if isinstance(n.ast, ast.Assign) and isinstance(n.ast.targets[0], ast.Subscript)
               and dotted(n.ast.targets[0].value) == f'self.{store_attr}']
     p = am.params[1].arg
-    okr = len(stores) == 1 and dotted(stores[0].ast.targets[0].slice) == f'{p}.name' and dotted(stores[0].ast.value) == p and \
+    from ..flow import Flow as _Flow
+    fl_am = _Flow(cfg)
+    key_ok = len(stores) == 1 and [dotted(al.expr) for al in fl_am.alts(stores[0], stores[0].ast.targets[0].slice)] == [f'{p}.name']
+    okr = len(stores) == 1 and key_ok and dotted(stores[0].ast.value) == p and \
         not guard_edges(cfg, stores[0]) and cfg.exit.id not in cfg.reachable(cfg.entry, avoid_nodes=stores)
     ck.ob('REPLACE-LATER', '_add_method: registry[method.name] = method, unconditionally', okr)
     if not okr:
@@ -272,9 +357,9 @@ def run(ck: Check, prog: Program) -> None:
         calls = [x for x in walk_own(m.node) if isinstance(x, ast.Call) and dotted(x.func) == target] if m else []
         ok_d = len(calls) == 1 and [dotted(a) for a in calls[0].args] == [p.arg for p in m.params[1:]]
         deleg[mname] = ok_d
-    am_ = base.methods.get('add_methods')
-    txt = norm(am_.node) if am_ else ''
-    deleg['add_methods'] = 'self._registry.merge(method)' in txt and 'self._registry.add_methods(method)' in txt and 'self._registry.add(method)' in txt
+    dprog = _inl(prog, ['pjrpc.server.dispatcher.BaseDispatcher.add_methods'])
+    am_ = dprog.cls('pjrpc.server.dispatcher.BaseDispatcher').methods.get('add_methods')
+    deleg['add_methods'] = _add_methods_delegates(dprog, am_) if am_ else False
     okd = unpref and all(deleg.values())
     ck.ob('NAME-COMPOSE', 'dispatcher add / add_methods / view delegate unchanged to an un-prefixed registry', okd, sample={'delegation': deleg})
     if not okd:
@@ -287,6 +372,8 @@ def run(ck: Check, prog: Program) -> None:
     if not okg:
         ck.finding('LOOKUP-EXACT', get.qualname, 'lookup is not exact', get.module.rel, get.node.lineno,
                    'MethodRegistry.get must be `registry.get(name)` with the name unmodified')
+    from .common import dispatcher_program
+    prog = dispatcher_program(prog)
     roles = dispatchers(prog)
     interp = c01.make_interp(prog, roles)
     for r in roles:
